@@ -1,4 +1,4 @@
-CONSTANTS NK = 3 KeyCls <- Cls3 KeyTyp <- Typ3 Bytes = {65, 98} L = 32 MaxEv = 0 HalfGuard = TRUE
+CONSTANTS NK = 3 KeyCls <- Cls3 KeyTyp <- Typ3 Bytes = {64, 98} L = 32 MaxEv = 0 ErrPairs <- ErrFew HalfGuard = TRUE
 SPECIFICATION TSpec
 INVARIANTS TypeOK Delivered InBounds LengthOK NoCross CurAgree InfoOK EvOK
 POSTCONDITION TraceAccepted
